@@ -114,7 +114,7 @@ def ids_for(fmt, vals, names):
     list / array input: the name *is* the value, so equal values are indistinguishable to the code; the model
     is given id = value, which makes them indistinguishable there too."""
     n = len(vals)
-    if fmt in ("list", "array"):
+    if fmt in ("list", "array", "uarray"):
         return list(vals)
     order = sorted(range(n), key=lambda i: names[i])
     ids = [0] * n
@@ -133,13 +133,13 @@ def f_bins(bins):
 
 
 # ---------------------------------------------------------------- input formats
-FORMATS = ["list", "array", "dict_str", "dict_int", "names_valueof"]
+FORMATS = ["list", "array", "dict_str", "dict_int", "names_valueof", "array_valueof"]
 
 
 def names_for(fmt, vals, rng):
     """distinct names for the items of a case in the given format (list/array: names are the values)"""
     n = len(vals)
-    if fmt in ("list", "array"):
+    if fmt in ("list", "array", "uarray"):
         return list(vals)
     if fmt in ("dict_str", "names_valueof"):
         # arbitrary distinct strings whose order is unrelated to the values
@@ -148,7 +148,7 @@ def names_for(fmt, vals, rng):
         if n and rng.random() < 0.3:
             res[rng.randrange(n)] = ""          # the empty string is a name like any other (and it is falsy)
         return res
-    if fmt == "dict_int":
+    if fmt in ("dict_int", "array_valueof"):
         # distinct integers that overlap with the range of the values but are unrelated to them
         top = min(max(list(vals) + [0]) + n + 3, 10 ** 6)
         res = rng.sample(range(0, top), n)
@@ -163,7 +163,18 @@ def present(fmt, vals, names):
     if fmt == "list":
         return list(vals), None
     if fmt == "array":
-        return np.array(vals, dtype=np.int64), None
+        # signed integers, wide or 32-bit (the 32-bit type only when the library's own integer arithmetic on the values - sums, doubled
+        # sums - cannot wrap in it: with narrow items numpy itself wraps 2*sum(items); that is outside "sums are exact", DESIGN section 10)
+        dts = [np.int64, np.int64] + ([np.int32] if 8 * (sum(vals) + max(list(vals) + [0])) < 2 ** 31 else [])
+        return np.array(vals, dtype=dts[int(sha([list(vals), "dtype"]), 16) % len(dts)]), None
+    if fmt == "uarray":
+        # unsigned integers (used only where named explicitly: known finding KF7 lives here; fix F12 was found here)
+        dts = [np.uint64] + ([np.uint32] if 8 * (sum(vals) + max(list(vals) + [0])) < 2 ** 31 else [])
+        return np.array(vals, dtype=dts[int(sha([list(vals), "dtype"]), 16) % len(dts)]), None
+    if fmt == "array_valueof":
+        # names+valueof with the names (integers unrelated to the values) in a numpy array
+        d = {int(nm): v for nm, v in zip(names, vals)}
+        return np.array(names, dtype=np.int64), (lambda x, d=d: d[int(x)])
     if fmt in ("dict_str", "dict_int"):
         return {nm: v for nm, v in zip(names, vals)}, None
     if fmt == "names_valueof":
